@@ -125,12 +125,30 @@ def _enumeration_case(draw, tier: str) -> Dict[str, Any]:
             'find': draw(st.sampled_from([60, 600]))}
 
 
+@st.composite
+def _tc_burst_case(draw, tier: str) -> Dict[str, Any]:
+    """Directed shape: one address sends a long run of valid truncated (TC) queries, each within the 400-500 ms hold of the
+    previous one, and then falls silent - counts around the powers of two a buffer limit would sit at."""
+    n_burst = draw(st.sampled_from([8, 9, 15, 16, 17, 18, 31, 32, 33, 34, 64, 65]))
+    stream = draw(st.lists(item(), min_size=0, max_size=4))
+    client = draw(st.integers(0, 2))
+    gap = draw(st.sampled_from([0, 1, 50, 300]))
+    burst = [{'d': {'src': 'vquery', 'what': ['ptr', 'srv', 'addr', 'enum'][i % 4], 'qu': bool(i % 3 == 0), 'tc': True, 'qid': 100 + i},
+              'gap': gap if i else draw(st.sampled_from([0, 1100])), 'port': 5353, 'family': 'v4', 'sock': 0, 'client': client, 'oversize': None,
+              'app': None} for i in range(n_burst)]
+    pos = draw(st.integers(0, len(stream)))
+    after = [dict(x, gap=max(x['gap'], 1100)) for x in stream[pos:pos + 1]] + stream[pos + 1:]      # silence: the hold runs out
+    return {'socks': draw(st.sampled_from(['v4', 'dual'])), 'seed': draw(st.integers(0, 10**6)), 'canary_junk': None,
+            'stream': stream[:pos] + burst + after, 'find': None}
+
+
 def strategy(tier: str):
     general = st.fixed_dictionaries({'socks': st.sampled_from(['v4', 'v4', 'dual']), 'seed': st.integers(0, 10**6),
                                      'canary_junk': st.sampled_from([None, 200, 500, 900]),
                                      'find': st.sampled_from([None, None, None, 5, 60]),
                                      'stream': st.lists(item(), min_size=1, max_size=40 if tier == 'thorough' else 25)})
-    return st.integers(0, 11).flatmap(lambda k: _cut_announcement_case(tier) if k == 0 else _enumeration_case(tier) if k == 1 else general)
+    return st.integers(0, 11).flatmap(lambda k: _cut_announcement_case(tier) if k == 0 else _enumeration_case(tier) if k == 1
+                                      else _tc_burst_case(tier) if k == 2 else general)
 
 
 def build(d: Dict[str, Any]) -> bytes:
@@ -148,7 +166,7 @@ def build(d: Dict[str, Any]) -> bytes:
         return e.finish(0x4242, 0, (n, 0, 0, 0))
     if src == 'vquery':
         q = {'ptr': (TYPE_OWN, 12), 'srv': (OWN['name'], 33), 'addr': (OWN['server'], 1), 'enum': (rp.ENUM, 12)}[d['what']]
-        return rp.build_query([(q[0], q[1], d['qu'])], [], qid=7, tc=d['tc'])
+        return rp.build_query([(q[0], q[1], d['qu'])], [], qid=d.get('qid', 7), tc=d['tc'])
     if src == 'hresp':
         t = TYPE_OWN if d['type_own'] else TYPE_B
         odd = [('l', bytes.fromhex(l)) for l in d['labels']]
